@@ -88,8 +88,20 @@ class EventBudget:
 
 
 # --------------------------------------------------------------------------
+# ad-hoc closed polygons (instances of the generic polygon class, no name of
+# their own): same side lengths (1,1,1,1,2,2), different shapes
+ADHOC = {
+    'PolyA': [(0, 0), (1, 0), (1, 1), (2, 1), (2, 2), (0, 2), (0, 0)],
+    'PolyB': [(0, 0), (1, 0), (2, 0), (2, 1), (2, 2), (0, 2), (0, 0)],
+}
+
+
 def make_curve(name):
     P = repo.mod('src.parametrization')
+    if name in ADHOC:
+        import numpy as np
+        return P.PiecewisePolygon(
+            vertices=[np.array(v) for v in ADHOC[name]])
     return getattr(P, name)()
 
 
@@ -767,6 +779,8 @@ def model_apply(case, mm, op, cap):
         return results
     elif kind == 'grading':
         model_grading(case, mm, op['sigma'], 4, cap)
+    elif kind == 'client_patch':
+        pass  # reading the neighbour relation does not change the mesh
     else:
         raise ValueError(kind)
     return None
@@ -853,6 +867,19 @@ def apply_op(case, op, cov, mode, log):
         run_impl(case, op, site, lambda: fn(e))
         if mode.get('model', True):
             n = model_apply(case, model, op, cap)
+    elif kind == 'client_patch':
+        # what a client of the mesh does with the reported neighbours:
+        # collect the edge patch of an element by extending the first list
+        # it got back (the lists are the client's to keep)
+        lf, e = case.elem_at(op['pt'])
+
+        def collect():
+            patch = e.edges[0].neighbour_elements()
+            for k in (1, 2, 3):
+                patch += e.edges[k].neighbour_elements()
+            return patch
+
+        run_impl(case, op, kind, collect)
     elif kind in ('uniform', 'uniform_space'):
         fn = mesh.uniform_refine if kind == 'uniform' else (
             mesh.uniform_refine_space)
@@ -913,7 +940,8 @@ def apply_op(case, op, cov, mode, log):
         raise ValueError(kind)
 
     # ---- compare / adopt
-    transparent = kind in ('bisect', 'uniform', 'uniform_space')
+    transparent = kind in ('bisect', 'uniform', 'uniform_space',
+                           'client_patch')
     if transparent and mode.get('compare'):
         boxes = case.check_leafset(site)
     elif kind.startswith('dorfler') and mode.get('dorfler_oracle'):
@@ -1114,6 +1142,10 @@ def gen_run(seed, params):
             if max(lv) >= LOG - 10:
                 continue
             op = {'op': 'bisect', 'pt': pt, 'axis': ax}
+        elif kind == 'client_patch':
+            lf = rng.choice(leaves)
+            op = {'op': kind, 'pt': [(lf[0] + lf[1]) // 2,
+                                     (lf[2] + lf[3]) // 2]}
         elif kind in ('uniform', 'uniform_space'):
             if len(leaves) * (4 if kind == 'uniform' else 2) > cap:
                 continue
